@@ -216,7 +216,12 @@ def finish(ctx, rule, exhaustive=None, extra_cov=None):
         path = os.path.join(rep_dir, f"{i}.json")
         json.dump({"property": ctx.id, "engine": engine, "signature": s, "detail": detail, "case": case},
                   open(path, "w"), indent=1)
-        print(f"VIOLATION property={ctx.id} replay={path}")
+        if ctx.id.startswith("X"):
+            # an extension specification (behaviour outside the listed properties): never reported as a
+            # violation of a listed property
+            print(f"EXT-VIOLATION spec={ctx.id} replay={path}")
+        else:
+            print(f"VIOLATION property={ctx.id} replay={path}")
         print(f"  {s}: {detail[:700]}")
     cov = dict(ctx.cov)
     cov["rule"] = rule
@@ -234,8 +239,9 @@ def finish(ctx, rule, exhaustive=None, extra_cov=None):
           "assumptions": ctx.assumptions, "wall_s": round(time.time() - ctx.t0, 1),
           "violations": len(real), "known_findings_reproduced": sorted(seen_known)}
     if not getattr(ctx, "replay_mode", False) and not os.environ.get("VERIF_NO_EVIDENCE"):   # a --replay run is not evidence
-        os.makedirs(os.path.join(ROOT, "evidence"), exist_ok=True)
-        json.dump(ev, open(os.path.join(ROOT, "evidence", f"{ctx.id}.json"), "w"), indent=1)
+        evdir = os.path.join(ROOT, "evidence_ext" if ctx.id.startswith("X") else "evidence")
+        os.makedirs(evdir, exist_ok=True)
+        json.dump(ev, open(os.path.join(evdir, f"{ctx.id}.json"), "w"), indent=1)
     ctx.note(f"done in {ev['wall_s']}s: {len(real)} violation(s), {len(seen_known)} known finding(s)")
     return 1 if real else 0
 
